@@ -18,6 +18,8 @@ use crate::report::{catch, Stats, Violation};
 
 /// one wide rule: rendered text + how to build a document and the truth value of `A` on it
 pub struct Wide {
+    /// rows written in the opposite order (C17: the order of the rows never decides)
+    pub rev: bool,
     pub shape: u8,
     pub n: usize,
     pub cond: &'static str,
@@ -36,29 +38,37 @@ impl Wide {
         let n = self.n;
         let mut y = String::with_capacity(n * 32);
         y.push_str("detection:\n  A:\n");
+        let mut rows: Vec<String> = vec![];
         match self.shape {
             // n rows of two cells sharing one column
             0 => {
                 for j in 0..n {
-                    y.push_str(&format!("  - common: c\n    {}: v{}\n", fname(j), j));
+                    rows.push(format!("  - common: c\n    {}: v{}\n", fname(j), j));
                 }
             }
             // n one-cell rows, then two rows that share fields (so that a matrix is worth building)
             1 => {
                 for j in 0..n {
-                    y.push_str(&format!("  - {}: v{}\n", fname(j), j));
+                    rows.push(format!("  - {}: v{}\n", fname(j), j));
                 }
-                y.push_str(&format!("  - zz: hit\n    {}: left\n", fname(0)));
-                y.push_str(&format!("  - zz: other\n    {}: right\n", fname(1)));
+                rows.push(format!("  - zz: hit\n    {}: left\n", fname(0)));
+                rows.push(format!("  - zz: other\n    {}: right\n", fname(1)));
             }
             // one row of n cells and one short row sharing its first field: few rows, many columns
             _ => {
-                y.push_str("  -");
+                let mut r = String::from("  -");
                 for j in 0..n {
-                    y.push_str(&format!("{}{}: v{}\n", if j == 0 { " " } else { "    " }, fname(j), j));
+                    r.push_str(&format!("{}{}: v{}\n", if j == 0 { " " } else { "    " }, fname(j), j));
                 }
-                y.push_str(&format!("  - {}: other\n    zz: b\n", fname(0)));
+                rows.push(r);
+                rows.push(format!("  - {}: other\n    zz: b\n", fname(0)));
             }
+        }
+        if self.rev {
+            rows.reverse();
+        }
+        for r in rows {
+            y.push_str(&r);
         }
         y.push_str(&format!("  condition: {}\ntrue_positives: []\ntrue_negatives: []\n", self.cond));
         y
@@ -200,7 +210,7 @@ pub fn sizes(th: bool) -> Vec<(u8, usize)> {
 
 /// Runs the family. `panics_only`: report only panics (C03). Signatures are prefixed `wide-matrix:`.
 pub fn run(th: bool, panics_only: bool) -> Stats {
-    let cases: Vec<(u8, usize, &'static str)> = sizes(th)
+    let cases: Vec<(u8, usize, &'static str, bool)> = sizes(th)
         .into_iter()
         .flat_map(|(shape, n)| {
             // shape 2 only under `A`: with a cell absent its short row is false or missing depending on
@@ -213,10 +223,14 @@ pub fn run(th: bool, panics_only: bool) -> Stats {
             } else {
                 vec!["A", "not A"]
             };
-            conds.into_iter().map(move |c| (shape, n, c))
+            conds.into_iter().flat_map(move |c| {
+                // rows in the opposite order as well, from the width at which a column index needs a second byte
+                let revs: Vec<bool> = if n >= 127 && n <= 4096 { vec![false, true] } else { vec![false] };
+                revs.into_iter().map(move |r| (shape, n, c, r))
+            })
         })
         .collect();
-    let parts: Vec<Stats> = cases.par_iter().map(|&(shape, n, cond)| one(Wide { shape, n, cond }, th, panics_only)).collect();
+    let parts: Vec<Stats> = cases.par_iter().map(|&(shape, n, cond, rev)| one(Wide { rev, shape, n, cond }, th, panics_only)).collect();
     let mut st = Stats::default();
     for p in parts {
         st.merge(p);
@@ -229,12 +243,12 @@ fn one(w: Wide, th: bool, panics_only: bool) -> Stats {
     let mut st = Stats::default();
     let yaml = w.yaml();
     let cols = w.columns();
-    let short = format!("wide rule shape {} with {} fields, condition {}", w.shape, w.n, w.cond);
+    let short = format!("wide rule shape {}{} with {} fields, condition {}", w.shape, if w.rev { " (rows reversed)" } else { "" }, w.n, w.cond);
     let viol = |sig: String, wit: String, sw: Sw, doc: Option<&MObj>| Violation {
         signature: sig,
         witness: wit,
         replay: json!({"kind":"optimise","rule_yaml": if yaml.len() < 40_000 { yaml.clone() } else { format!("(regenerate: wide shape {} n {} cond {})", w.shape, w.n, w.cond) },
-            "wide": {"shape": w.shape, "n": w.n, "cond": w.cond},
+            "wide": {"shape": w.shape, "n": w.n, "cond": w.cond, "rows_reversed": w.rev},
             "sw_bits": sw, "hash_order_choices": [], "document": doc.map(crate::report::mobj_to_json)}),
     };
     let rule = match eng::load(&yaml) {
